@@ -29,7 +29,7 @@ ASSUMPTIONS = [
 OUTSIDE = [
     'datagrams longer than the fully-symbolic bound that are not within 1 (quick) / 2 (thorough) byte mutations or a '
     'truncation of a valid datagram',
-    'behaviour of the rpc handlers on well-formed but hostile field values',
+    'behaviour of the rpc handlers on well-formed but hostile field values (only their precondition is checked: both ids are byte strings of the protocol length)',
 ]
 
 
